@@ -293,7 +293,7 @@ def run(ctx):
         gd = g.data()
         W.set_orders(order, 1)
         sp = b.function_space(g, spc[0], spc[1], **spc[2])
-        c = sym_array("c%d" % ci, (sp.global_dof_count,), complex_=(ci == 0))
+        c = sym_array("c%d" % ci, (sp.global_dof_count,), complex_=(ci in (0, 1)))
         f = b.GridFunction(sp, coefficients=c)
         params = {"mesh": mesh, "space": list(spc), "order": order}
         dim = sp.codomain_dimension
@@ -364,6 +364,21 @@ def run(ctx):
                     spec[gi] = spec[gi] + acc * wts[q] * gd.integration_elements[el]
         for i in range(sp.global_dof_count):
             ctx.prove("C%d/projections/%s/%d" % (ci, spc[0], i), eq_formula(proj[i], spec[i]), [], family="gf_projections", params=params, abs_cons=False, group="C-projections-" + spc[0])
+        # l2_norm: sqrt(|c^H M c|) with M the mass matrix of the same rule; compared through its 4th power
+        # ( l2^2 = |z|,  |z|^2 = Re(z)^2 + Im(z)^2 ) with z = sum_i conj(c_i) * (M c)_i written by the harness
+        try:
+            if spc[0] not in ("P", "DP"):
+                raise KeyError  # RWG/SNC l2_norm identity (edge-length atoms inside nested roots) is not decided within budget
+            l2 = f.l2_norm()
+            z = SC(ZERO, ZERO)
+            for i in range(sp.global_dof_count):
+                z = z + SC.lift(c[i]).conjugate() * SC.lift(spec[i])
+            l2sq = l2 * l2
+            ctx.prove("C%d/l2_norm/%s" % (ci, spc[0]), eq_formula(l2sq * l2sq, z.re * z.re + z.im * z.im), [], family="gf_l2norm", params=params, abs_cons="cone", group="C-l2norm-" + spc[0])
+        except KeyError:
+            ctx.out("l2_norm of vector-valued (RWG/SNC) functions as a symbolic identity (covered only by the concrete replay)")
+        except (TypeError, ValueError, AttributeError) as e:
+            ctx.violation("C%d/l2_norm/%s/raises" % (ci, spc[0]), "gf_l2norm", params, "l2_norm raised %s" % e)
         if thorough or ci == 1:
             ctx.concrete("gf/%d" % ci, "gf", params)
         ctx.log("C%d grid function %s %s %.1fs" % (ci, mesh, spc[0], time.time() - t0))
@@ -498,7 +513,11 @@ def concrete(family, params):
         proj = f.projections()
         spec = quad_mass(sp, sp) @ c
         worst["projections"] = float(np.max(np.abs(proj - spec)) / np.max(np.abs(spec)))
-        fam = {"gf_integrate": "integrate", "gf_centers": "centers", "gf_projections": "projections"}.get(family)
+        cc = c + 1j * rng.rand(sp.global_dof_count)
+        fc = b.GridFunction(sp, coefficients=cc)
+        exact = np.sqrt(abs(np.vdot(cc, quad_mass(sp, sp) @ cc)))
+        worst["l2norm"] = float(abs(fc.l2_norm() - exact) / exact)
+        fam = {"gf_integrate": "integrate", "gf_centers": "centers", "gf_projections": "projections", "gf_l2norm": "l2norm"}.get(family)
         if fam:
             gap = worst[fam]
             return {"gap": gap if gap > 1e-10 else 0.0, "detail": worst, "key": "%s/%s" % (family, spc[0])}
